@@ -6,7 +6,8 @@ pub type AreaFn = fn(&Value) -> Vec<Value>;
 pub mod co;
 mod conc;
 pub mod sched;
-mod pool;
+pub mod pool;
+mod joinh;
 mod net20;
 mod net21;
 mod beans;
@@ -27,6 +28,7 @@ pub fn lookup(name: &str) -> Option<AreaFn> {
         "conc" => Some(conc::run),
         "sched" => Some(sched::run),
         "pool" => Some(pool::run),
+        "joinh" => Some(joinh::run),
         "net20" => Some(net20::run),
         "net21" => Some(net21::run),
         "sockio" => Some(sockio::run),
